@@ -17,6 +17,16 @@
   C01's `construct_origArgs`; the literal `bysetpos=()` is the one excluded input — stored as `()`,
   not recorded, rebuilt as `None`: same occurrences, different attribute).  `query.replace` ties
   this to the code from the ORIGINAL constructor arguments.
+  Of the six `replace` statements only `replace_nothing_id` has proof content; the others are `rfl`
+  and are marked "(definitional)".  NOT proved — the user-level statement
+      construct a = .ok r → replace a r kw ≈ construct (merge a kw)
+  ("the rule you would have built with the merged ORIGINAL arguments", on the fields that determine the
+  occurrences).  It needs `construct (merge (origArgs a r) kw) ≈ construct (merge a kw)`, i.e. that every
+  normalisation of the constructor commutes with overriding other keywords (e.g. the byhour
+  reachability filter depends on freq/interval; derived weekday / month day on dtstart) — a family of
+  `construct_origArgs`-style lemmas per keyword that is not written.  On the implementation this is
+  exactly what the oracle checks (`oracle_replace`: `r.replace(**kw)` vs the rule built from the merged
+  original keywords, through the instants both yield) and what `query.replace` ties to the model.
 -/
 import DateutilVerif.Proofs.Queries
 import DateutilVerif.Proofs.Islice
@@ -36,15 +46,25 @@ theorem getitem_index (L : List Int) (i : Int) :
   · rw [if_pos h, nthNext_getIdx L i h]
   · rw [if_neg h]
 
-/-- `rule[a:b:c] = L[a:b:c]` for all `a b c ∈ Option Int` (negative, zero, None), `ValueError`
-    exactly for step 0 — both paths. -/
-theorem getitem_slice (L : List Int) (a b c : Option Int) :
-    gen (.slice a b c) L = .ofRL (Py.slice L a b c) ∧ fast (.slice a b c) L = .ofRL (Py.slice L a b c) := by
-  refine ⟨?_, rfl⟩
-  simp only [gen]
-  cases h : sliceListPath a b c with
-  | true => simp
-  | false => simp only [Bool.false_eq_true, ↓reduceIte]; rw [islice_eq_slice L a b c h]
+/-- `rule[a:b:c] = L[a:b:c]` for ALL `a b c ∈ Option Int` — negative, zero (`ValueError` exactly for
+    step 0), `None`, and arbitrarily large (bounds above `sys.maxsize` are clamped before `islice`,
+    fix a0cc6d1) — on both paths.  `hlen`: the sequence is one that can exist in CPython (no Python
+    sequence is longer than `sys.maxsize`; it is only used when a bound exceeds `sys.maxsize`, and the
+    model's lists, unlike Python's, are unbounded). -/
+theorem getitem_slice (L : List Int) (hlen : (L.length : Int) ≤ maxsize) (a b c : Option Int) :
+    gen (.slice a b c) L = .ofRL (Py.slice L a b c) ∧ fast (.slice a b c) L = .ofRL (Py.slice L a b c) :=
+  ⟨gen_slice_eq L a b c (Or.inr hlen), rfl⟩
+
+/-- … and with no condition on `L` for bounds up to `sys.maxsize` -/
+theorem getitem_slice_small (L : List Int) (a b c : Option Int) (hsmall : small (.slice a b c) = true) :
+    gen (.slice a b c) L = .ofRL (Py.slice L a b c) ∧ fast (.slice a b c) L = .ofRL (Py.slice L a b c) :=
+  ⟨gen_slice_eq L a b c (Or.inl hsmall), rfl⟩
+
+-- bounds of 2^63 and beyond: clamped, list semantics on both paths (before fix a0cc6d1: ValueError from islice)
+example : gen (.slice (some 0) (some 9223372036854775808) none) [0, 1, 2] = .list [0, 1, 2] ∧
+          gen (.slice (some 1) none (some 18446744073709551616)) [0, 1, 2] = .list [1] ∧
+          gen (.slice (some 9223372036854775808) none none) [0, 1, 2] = .list [] ∧
+          fast (.slice (some 0) (some 9223372036854775808) none) [0, 1, 2] = .list [0, 1, 2] := by decide
 
 /-- `x in rule ↔ x ∈ L` — the early exit of the generator path needs sortedness only. -/
 theorem contains_iff (L : List Int) (hL : Sorted L) (x : Int) :
@@ -81,12 +101,12 @@ theorem xafter_spec (L : List Int) (t : Int) (n : Option Int) (inc : Bool) :
   | some c => simp only [gen, fast, xafterLoop_some t c inc L 0 (by omega), takeAfter, Int.sub_zero, and_self]
 
 /-- every query equals its list specification on the generator path … -/
-theorem gen_eq_spec (q : Query) (L : List Int) (hL : Sorted L) : gen q L = spec q L := by
+theorem gen_eq_spec (q : Query) (L : List Int) (hL : Sorted L) (hfits : fits q L) : gen q L = spec q L := by
   cases q with
   | iterAll => rfl
-  | take k => simp only [gen, spec, islice_take, Res.ofRL]
+  | take k => simp only [gen, spec, islice_take L k hfits, Res.ofRL]
   | index i => exact (getitem_index L i).1
-  | slice a b c => exact (getitem_slice L a b c).1
+  | slice a b c => exact gen_slice_eq L a b c hfits
   | contains x => exact (contains_iff L hL x).1
   | count => rfl
   | before t inc => exact (before_spec L hL t inc).1
@@ -95,12 +115,12 @@ theorem gen_eq_spec (q : Query) (L : List Int) (hL : Sorted L) : gen q L = spec 
   | between a b inc => exact (between_spec L hL a b inc).1
 
 /-- … and on the cache-complete path -/
-theorem fast_eq_spec (q : Query) (L : List Int) (hL : Sorted L) : fast q L = spec q L := by
+theorem fast_eq_spec (q : Query) (L : List Int) (hL : Sorted L) (hfits : fits q L) : fast q L = spec q L := by
   cases q with
   | iterAll => rfl
-  | take k => simp only [fast, spec, islice_take, Res.ofRL]
+  | take k => simp only [fast, spec, islice_take L k hfits, Res.ofRL]
   | index i => exact (getitem_index L i).2
-  | slice a b c => exact (getitem_slice L a b c).2
+  | slice a b c => rfl
   | contains x => exact (contains_iff L hL x).2
   | count => rfl
   | before t inc => exact (before_spec L hL t inc).2
@@ -109,21 +129,22 @@ theorem fast_eq_spec (q : Query) (L : List Int) (hL : Sorted L) : fast q L = spe
   | between a b inc => exact (between_spec L hL a b inc).2
 
 /-- answers do not depend on whether the cache-complete fast path or the generator path is taken -/
-theorem query_cache_independent (q : Query) (L : List Int) (hL : Sorted L) : gen q L = fast q L := by
-  rw [gen_eq_spec q L hL, fast_eq_spec q L hL]
+theorem query_cache_independent (q : Query) (L : List Int) (hL : Sorted L) (hfits : fits q L) :
+    gen q L = fast q L := by
+  rw [gen_eq_spec q L hL hfits, fast_eq_spec q L hL hfits]
 
 /-- a consumer that dropped its iterator early (after the values `ys`, a prefix of `L`) already has
     the specified answer: the early exits never lose information -/
-theorem early_exit_sound (q : Query) (ys zs : List Int) (hL : Sorted (ys ++ zs)) (h : stops q ys = true) :
-    gen q ys = spec q (ys ++ zs) := by
-  rw [← gen_stops q ys zs h, gen_eq_spec q _ hL]
+theorem early_exit_sound (q : Query) (ys zs : List Int) (hL : Sorted (ys ++ zs)) (h : stops q ys = true)
+    (hfits : fits q (ys ++ zs)) : gen q ys = spec q (ys ++ zs) := by
+  rw [← gen_stops q ys zs h, gen_eq_spec q _ hL hfits]
 
-/-- **replace_spec.** `r.replace(**kw)` is the constructor applied to the recorded arguments updated
+/-- **replace_spec (definitional: `rfl`).** `r.replace(**kw)` is the constructor applied to the recorded arguments updated
     by the named parameters (rrule.py 772-781: three dict operations and a constructor call). -/
 theorem replace_spec (orig : RRule.Args) (kw : RRule.Kw) :
     RRule.replaceFrom orig kw = RRule.construct (RRule.merge orig kw) := rfl
 
-/-- a rule differing ONLY in the named parameters: every keyword that is not passed keeps the
+/-- (definitional: `rfl` per field) a rule differing ONLY in the named parameters: every keyword that is not passed keeps the
     recorded value, every keyword that is passed takes the given one -/
 theorem replace_named_only (o : RRule.Args) (kw : RRule.Kw) :
     let m := RRule.merge o kw
@@ -137,10 +158,11 @@ theorem replace_named_only (o : RRule.Args) (kw : RRule.Kw) :
     m.bysecond = kw.bysecond.getD o.bysecond :=
   ⟨rfl, rfl, rfl, rfl, rfl, rfl, rfl, rfl, rfl, rfl, rfl, rfl, rfl, rfl, rfl, rfl, rfl⟩
 
-/-- `r.replace()` with no keyword re-runs the constructor on the recorded arguments -/
+/-- (definitional: `rfl`) `r.replace()` with no keyword re-runs the constructor on the recorded arguments -/
 theorem replace_nothing (o : RRule.Args) : RRule.replaceFrom o {} = RRule.construct o := rfl
 
-/-- **replace = construct (recorded args ⊕ kw)**, the recorded arguments now being derived from the
+/-- **replace = construct (recorded args ⊕ kw)** (definitional: `rfl` — the method IS three dict updates
+    and a constructor call; the content is in `origArgs` and `replace_nothing_id`), the recorded arguments now being derived from the
     constructor model, not an input: for the rule `r` built from `a`, `r.replace(**kw)` is the
     constructor applied to `origArgs a r` updated by the named parameters. -/
 theorem replace_is_construct_of_recorded_args (a : RRule.Args) (r : RRule.Rule) (kw : RRule.Kw) :
@@ -152,7 +174,7 @@ theorem replace_nothing_id (a : RRule.Args) (r : RRule.Rule) (h : RRule.construc
     (hsp : a.bysetpos ≠ some []) : RRule.replace a r {} = .ok r :=
   RRule.replace_nothing_id a r h hsp
 
-/-- **differs only in the named parameters**, phrased on the rule: the arguments `r.replace(**kw)`
+/-- (definitional) **differs only in the named parameters**, phrased on the rule: the arguments `r.replace(**kw)`
     hands to the constructor are those `r.replace()` would hand over (which rebuild `r`, above),
     except that every keyword passed takes the given value. -/
 theorem replace_named_only_orig (a : RRule.Args) (r : RRule.Rule) (kw : RRule.Kw) :
